@@ -237,6 +237,43 @@ def run(res, tier, seed, shard, nshards):
                             break
                     if not ok:
                         continue
+                    # windows of time: both ends on / next to stored instants, every inclusive/exclusive combination,
+                    # either operand first, the two comparison values presented in different zones; and the complement
+                    ends = sorted({u + d for u in stored for d in (0, 1, -1) if Y1700 <= u + d <= Y2240})
+                    for _ in range(6):
+                        lo_us, hi_us = sorted(rng.sample(ends, 2)) if len(ends) > 1 else (ends[0], ends[0])
+                        if rng.random() < 0.3:
+                            hi_us = lo_us  # degenerate window: a single instant (or empty when an end is exclusive)
+                        lo_dt = from_us(lo_us, rng.choice([0, 345, -480, 630]))
+                        hi_dt = from_us(hi_us, rng.choice([0, 345, -480, 630]))
+                        lo_op, hi_op = rng.choice([">", ">="]), rng.choice(["<", "<="])
+                        lo_q = (T > lo_dt) if lo_op == ">" else (T >= lo_dt)
+                        hi_q = (T < hi_dt) if hi_op == "<" else (T <= hi_dt)
+                        in_lo = (lambda a: a > lo_us) if lo_op == ">" else (lambda a: a >= lo_us)
+                        in_hi = (lambda a: a < hi_us) if hi_op == "<" else (lambda a: a <= hi_us)
+                        forms = [
+                            ("from&until", lo_q & hi_q, lambda a: in_lo(a) and in_hi(a)),
+                            ("until&from", hi_q & lo_q, lambda a: in_lo(a) and in_hi(a)),
+                            ("~from|~until", (~lo_q) | (~hi_q), lambda a: not (in_lo(a) and in_hi(a))),
+                            ("until|from", hi_q | lo_q, lambda a: in_lo(a) or in_hi(a)),
+                        ]
+                        for name, q, f in forms:
+                            want = [str(i) for i in range(n) if f(stored[i])]
+                            res.evaluations += 1
+                            res.count(f"windows.{serving}")
+                            try:
+                                c = db.count(q)
+                                got = [p.tags["i"] for p in db.search(q, sorted=False)]
+                            except contracts.ContractBroken as e:
+                                c, got = "contract-broken", [repr(e)]
+                            if c != len(want) or got != want:
+                                bad("time-window-wrong", dict(ctx, form=name, lo=f"{lo_op}{lo_dt.isoformat()}", hi=f"{hi_op}{hi_dt.isoformat()}", stored_us=stored, expected=want, observed=got, observed_count=c, serving=serving), rep)
+                                ok = False
+                                break
+                        if not ok:
+                            break
+                    if not ok:
+                        continue
                     # update(time=...) static and callable
                     k = rng.randrange(n)
                     newc = present(rng, rng.choice(gen_instants(rng, zone, 2)), zone)
@@ -319,6 +356,8 @@ def finalize(res, tier):
     for z in ZONES:
         res.require(f"zone.{z}")
     res.require("comparisons.scan")
+    res.require("windows.index")
+    res.require("windows.scan")
     res.require("presented.ambiguous_or_gap_naive")
     res.require("sorted_checks_with_ties")
     res.require("reopens")
